@@ -314,6 +314,19 @@ def detail_sig(d):
     raise ValueError('unknown detail %r' % d)
 
 
+def trace_data(n):
+    """a trace node as plain data; every detail object is rendered exactly ONCE (some render lazily from generators)"""
+    return (n.header, bool(n.data), ';'.join(detail_sig(d) for d in n.details), [trace_data(c) for c in n.children])
+
+
+def sig_of_data(t):
+    return '%s=%s[%s]{%s}' % (t[0], t[1], t[2], ';'.join(sig_of_data(c) for c in t[3]))
+
+
+def trace_sig(n):
+    return sig_of_data(trace_data(n))
+
+
 def node_sig(n):
     return '%s[%s]{%s}' % (n.header, ';'.join(detail_sig(d) for d in n.details), ';'.join(node_sig(c) for c in n.children))
 
@@ -353,9 +366,18 @@ class HostImpl:
             self.leaf_prim[i] = p
         self.models = self.make_models(tmp)
         self.leaf_tab = {}
+        self.tsig2leaf = {}
         if host['matcher']:
             for mi in range(len(self.models)):
-                self.leaf_tab[mi] = {i: bool(p.matches_w_trace(self.model(mi)).value) for i, p in self.leaf_prim.items()}
+                self.leaf_tab[mi] = {}
+                self.tsig2leaf[mi] = {}
+                for i, p in self.leaf_prim.items():
+                    r = p.matches_w_trace(self.model(mi))
+                    self.leaf_tab[mi][i] = bool(r.value)
+                    sig = trace_sig(r.trace.render())
+                    assert sig not in self.tsig2leaf[mi], 'leaf traces not distinguishable: %s' % sig
+                    assert r.trace.render().header not in OP_WORD, sig
+                    self.tsig2leaf[mi][sig] = i
         else:
             self.leaf_tab = {}
             for i, p in self.leaf_prim.items():
@@ -422,15 +444,19 @@ class HostImpl:
             raise ValueError('structure node is neither an operator nor a known leaf: ' + sig)
         return ('L', self.sig2leaf[sig])
 
-    def trace_of(self, e, n):
-        """the matching trace aligned with the structure [e]: (label, value, children evaluated)"""
-        if e[0] == 'L':
-            return (e[1], bool(n.data), [])
-        if e[0] == 'P':
-            assert n.header == '!' and len(n.children) == 1, n.header
-            return (e[1], bool(n.data), [self.trace_of(e[2], n.children[0])])
-        assert n.header == WORD_STR[e[1]] and len(n.children) <= len(e[2]), n.header
-        return (e[1], bool(n.data), [self.trace_of(x, c) for x, c in zip(e[2], n.children)])
+    def trace_of(self, mi, n):
+        """the matching trace, canonicalised WITHOUT reference to the structure: (label, value, children);
+        a node that is not an operator node is a leaf, identified by the trace the leaf alone gives on model mi
+        (an unknown trace gets label 999: the Coq check then fails for the case, it is not a harness error)"""
+        return self._canon_trace(mi, trace_data(n))
+
+    def _canon_trace(self, mi, t):
+        h, value, details, children = t
+        if h == '!' and len(children) == 1 and not details:
+            return (W_NOT, value, [self._canon_trace(mi, children[0])])
+        if h in ('&&', '||') and not details and children and sig_of_data(t) not in self.tsig2leaf[mi]:
+            return (OP_WORD[h], value, [self._canon_trace(mi, c) for c in children])
+        return (self.tsig2leaf[mi].get(sig_of_data(t), 999), value, [])
 
     def parse(self, source, simple, must_cur, path=()):
         """('err',) | ('ok', expr, number of chars consumed, primitive of the expression or None)"""
@@ -607,7 +633,7 @@ def observe(rng, hosts, c):
         if host['matcher']:
             mi = rng.below(len(hi.models))
             res = p.matches_w_trace(hi.model(mi))
-            t = hi.trace_of(e, res.trace.render())
+            t = hi.trace_of(mi, res.trace.render())
             assert bool(res.value) == t[1]
             c.ev.append(('match', hi.leaf_tab[mi], t,
                          {'model': repr(hi.models[mi]) if c.hi < 3 else str(hi.models[mi].primitive.name),
@@ -624,21 +650,32 @@ def new_case(hi, simple, must_cur, toks, gen, follow, kind):
     return c
 
 
-CORPUS = [
-    # the two reproductions of FIX-C06-1 (must be syntax errors), and the layouts of DESIGN C06 L1-L6
-    (0, False, [('w', False, W_LP), ('w', False, 100), ('w', False, W_OR), ('w', False, 101), ('nl',), ('w', False, W_AND),
-                ('w', False, W_AND), ('w', False, 100)]),
-    (0, False, [('w', False, W_LP), ('w', False, 100), ('w', False, W_OR), ('w', False, 101), ('nl',), ('w', False, W_AND),
-                ('nl',), ('w', False, 100)]),
-    (0, False, [('w', False, W_LP), ('w', False, 100), ('w', False, W_OR), ('w', False, 101), ('nl',), ('w', False, W_AND),
-                ('w', False, 100), ('w', False, W_RP)]),
-    (0, False, [('w', False, 100), ('nl',), ('w', False, W_AND), ('w', False, 101), ('w', False, W_OR), ('w', False, 102)]),
-    (0, False, [('w', False, 100), ('nl',), ('w', False, W_OR), ('w', False, 101)]),
-    (0, False, [('w', False, W_LP), ('w', False, 100), ('w', False, W_AND), ('w', False, 101), ('nl',), ('w', False, W_AND),
-                ('w', False, 102), ('w', False, W_RP)]),
-    (5, False, [('w', False, W_LP), ('w', False, 100), ('nl',), ('w', False, W_PIPE), ('w', False, 101), ('w', False, W_RP)]),
-    (5, False, [('w', False, 100), ('nl',), ('w', False, W_PIPE), ('w', False, 101)]),
-]
+def load_corpus():
+    """harness/corpus/C06/*.json -> [(host index, simple, tokens, end_to_end tail or None)]"""
+    out = []
+    d = os.path.join(os.path.dirname(os.path.abspath(__file__)), 'corpus', 'C06')
+    for fn in sorted(os.listdir(d)):
+        if not fn.endswith('.json'):
+            continue
+        for c in json.load(open(os.path.join(d, fn)))['cases']:
+            toks = []
+            for t in c['tokens']:
+                quoted = t.startswith('q:')
+                t = t[2:] if quoted else t
+                if t == 'NL':
+                    toks.append(('nl',))
+                elif t in OP_WORD:
+                    toks.append(('w', quoted, OP_WORD[t]))
+                else:
+                    assert t[0] == 'L' and int(t[1:]) < len(HOSTS[c['host']]['leaves']), t
+                    toks.append(('w', quoted, 100 + int(t[1:])))
+            out.append((c['host'], c['simple'], toks, c.get('tail') if c.get('end_to_end') else None))
+    if not out:
+        raise RuntimeError('regression corpus is empty')
+    return out
+
+
+CORPUS = load_corpus()
 
 
 def generate(ctx, res, hosts):
@@ -646,7 +683,7 @@ def generate(ctx, res, hosts):
     # per host: permitted, any layout, malformed; per context: nested
     n_per = SIZES.get('override') or ((260, 200, 200, 60) if ctx.quick else (3000, 2500, 2500, 400))
     cases = []
-    for hi, simple, toks in CORPUS:
+    for hi, simple, toks, _ in CORPUS:
         cases.append(new_case(hi, simple, False, toks, None, [], 'corpus'))
     for hi, host in enumerate(HOSTS):
         n_lv = len(levels_of(host))
@@ -805,7 +842,7 @@ def generate_e2e(ctx, hosts, tmp):
         tab = e2e.init_host(hi)
         if hi == 0:
             # regression corpus: the two reproductions of FIX-C06-1 (must be SYNTAX_ERROR)
-            for toks, tail in ((CORPUS[0][2], ''), (CORPUS[1][2][:-2], '\nexit-code != 2')):
+            for toks, tail in [(x[2], x[3]) for x in CORPUS if x[0] == 0 and x[3] is not None]:
                 c = ECase()
                 c.hi, c.simple, c.gen, c.toks, c.spec = 0, False, None, toks, ('match', tab)
                 c.instruction = pre + to_source(rng, host, toks)[0] + tail
